@@ -14,10 +14,11 @@ func init() {
 		explanation: "Static clauses of 'graph state is per run and accessed under mutual exclusion': " +
 			"(lock-region) every user of getState (the four handler converters and ProcessState) calls the user-supplied function with the state only after an unconditional Lock of the state's mutex, with the matching Unlock deferred; internalState.state is read only in getState/GetState and the two checkpoint save sites; " +
 			"(pre-before-post-after) submit runs a node's pre-handler before launching it and stores its result as the task input; waitOne runs the post-handler after collecting the task, only on success, and stores its result as the task output; " +
-			"(per-run) the state generator is invoked only inside the per-run context literal and returns a fresh object; " +
+			"(per-run) the state generator is invoked only inside the per-run context literal and returns a fresh object; the holder (state + mutex) put into the context is allocated by that very invocation, and the literal writes nothing captured from compile; " +
+			"(gate-exact) the pre-/post-handler calls run under exactly the expected conditions (handler present, task successful / not resumed) — any further conjunct is reported; " +
 			"(survives) on both restore arms the checkpointed state is placed in the context whenever it is non-nil — no further condition — after the caller's state modifier ran; both save sites record it; " +
 			"(state-required) a node with state handlers on a graph without state is rejected.",
-		decided:    []string{"lock-region", "pre-before-post-after", "per-run", "survives", "state-required"},
+		decided:    []string{"lock-region", "pre-before-post-after", "gate-exact", "per-run", "survives", "state-required"},
 		notDecided: []string{"lost-update freedom inside user handlers", "that user handlers do not leak the state pointer", "fairness/ordering between handlers of parallel nodes"},
 		run:        runC11,
 	})
